@@ -85,6 +85,12 @@ chk("C01",
     "Coq proof (counting split + induction over the batch with the evolving index) + regenerated guards tie + vm_compute correspondence + history monitors",
     "DESIGN.md §4 C01")
 
+chk("C02",
+    "Coq theorems over the decision model of a transfer (update_pull, group_search_async, routing and outcome handling of pull_async, copy_request_done) for every pre-state, transport and outcome: completion implies a healthy destination record written with it (one atomic block), rule firing, a reported success, and no differing or missing digest; any failure leaves the request pending and uncancelled, no healthy destination record, the destination path removed, and the source flagged exactly when it may be at fault; a pull task runs only if the group state was corrupt or nothing was recorded and no file was found on disk (a stray file is marked suspect instead); only from an active, healthy, ready source; routing facts. Byte-faithfulness of rsync/bbcp/link is the transport contract (assumed; checked on the stand-ins and the real rsync by the monitor, which found and led to the repair of F-C02b). Tie: all guards and the exact test sequences of the four functions translated/checked each run (T1); the product transport x outcome x destination pre-state x source state x file shape is run through the real destination daemon and compared with the model in Coq; monitors check bytes, artefacts, timestamps (T2).",
+    "Coq kernel+VM; translator fragment; transport contract; stand-in tools; the harness predicts transport and tool outcome from the scenario",
+    "Coq proof (finite case analysis over the decision model; transaction script) + regenerated guards tie + vm_compute correspondence + byte-level monitor",
+    "DESIGN.md §4 C02")
+
 ALL = [f"C{i:02d}" for i in range(1, 21)]
 NA_REASON = "check not yet built in this revision (planned: see DESIGN.md §7); nothing is claimed for it"
 
